@@ -20,15 +20,25 @@ type solverCfg struct {
 	incr bool
 }
 
+// Limits are deterministic resource limits (z3's rlimit, about 1.5 million
+// units per second on an idle core) so that a verdict does not depend on how
+// loaded the machine is; the wall-clock limit is only a generous safety net.
+const rlimitPerMs = 1500
+const wallFactor = 6
+
 var solvers = []solverCfg{
 	{"z3-5.1.0/ematching", func(ms int, f string) []string {
-		return []string{"z3-new", fmt.Sprintf("-t:%d", ms), "smt.mbqi=false", f}
+		return []string{"z3-new", fmt.Sprintf("rlimit=%d", ms*rlimitPerMs), fmt.Sprintf("-t:%d", ms*wallFactor), "smt.mbqi=false", f}
 	}, true},
-	{"z3-5.1.0", func(ms int, f string) []string { return []string{"z3-new", fmt.Sprintf("-t:%d", ms), f} }, true},
+	{"z3-5.1.0", func(ms int, f string) []string {
+		return []string{"z3-new", fmt.Sprintf("rlimit=%d", ms*rlimitPerMs), fmt.Sprintf("-t:%d", ms*wallFactor), f}
+	}, true},
 	{"cvc5-1.0", func(ms int, f string) []string {
-		return []string{"cvc5", "--incremental", fmt.Sprintf("--tlimit-per=%d", ms), f}
+		return []string{"cvc5", "--incremental", fmt.Sprintf("--tlimit-per=%d", ms*2), f}
 	}, true},
-	{"z3-4.8.12", func(ms int, f string) []string { return []string{"z3", fmt.Sprintf("-t:%d", ms), f} }, true},
+	{"z3-4.8.12", func(ms int, f string) []string {
+		return []string{"z3", fmt.Sprintf("rlimit=%d", ms*rlimitPerMs), fmt.Sprintf("-t:%d", ms*wallFactor), f}
+	}, true},
 }
 
 // pathNodes returns the nodes from the root to leaf.
@@ -294,7 +304,7 @@ func dischargeAll(xs []*Exec, dir string, perCheckMs int, workers int) {
 			sem <- struct{}{}
 			defer func() { <-sem }()
 			job := ref.job
-			total := time.Duration(perCheckMs*(len(job.goals)+1))*time.Millisecond + 20*time.Second
+			total := time.Duration(wallFactor*perCheckMs*(len(job.goals)+1))*time.Millisecond + 20*time.Second
 			ctx, cancel := context.WithTimeout(context.Background(), total)
 			defer cancel()
 			t0 := time.Now()
@@ -337,7 +347,7 @@ func dischargeAll(xs []*Exec, dir string, perCheckMs int, workers int) {
 					ms                 int64
 				}
 				ch := make(chan ans, len(solvers))
-				ctx2, cancel2 := context.WithTimeout(context.Background(), time.Duration(perCheckMs)*time.Millisecond+10*time.Second)
+				ctx2, cancel2 := context.WithTimeout(context.Background(), time.Duration(wallFactor*perCheckMs)*time.Millisecond+10*time.Second)
 				for si := 1; si < len(solvers); si++ {
 					go func(si int) {
 						t1 := time.Now()
